@@ -42,11 +42,13 @@ public:
   int set_smp_mode(smp_mode_t mode) override { smp_mode_v = mode; return COLVARS_OK; }
   int smp_loop(int n_items, std::function<int (int)> const &worker) override;
   int smp_biases_loop() override;
-  int smp_thread_id() override { return cur_thread; }
+  int smp_thread_id() override;
   int smp_num_threads() override { return n_threads; }
-  int smp_lock() override { return COLVARS_OK; }
-  int smp_trylock() override { return COLVARS_OK; }
-  int smp_unlock() override { return COLVARS_OK; }
+  int smp_lock() override;
+  int smp_trylock() override;
+  int smp_unlock() override;
+  bool real_threads = false;      // run the work items of the smp loops on std::thread workers
+  std::vector<int> order_of(int n) const;
 
   // replicas (in-process, lock-step simulated by the harness)
   int check_replicas_enabled() override { return n_replicas > 1 ? COLVARS_OK : COLVARS_NOT_IMPLEMENTED; }
